@@ -43,8 +43,13 @@ pub trait ExtractAttribute {
         let will_fwd_any = self.forward_attrs().will_forward_any();
 
         if !(will_parse_any || will_fwd_any) {
+            // There is nothing to read, but a forwarded-attrs field may still have been
+            // declared (`forward_attrs()` with an empty list): give it its (empty) value so the
+            // initializer has something to unwrap.
+            let fwd_population = self.forward_attrs().as_value_populator();
             return quote! {
                 #declarations
+                #fwd_population
             };
         }
 
